@@ -27,6 +27,7 @@ import util
 
 INF = float("inf")
 FINDING_RENORM_ZERO = "C10-renorm-zero-spectrum"
+FINDING_NORM_ROUNDING = "C10-sum-norm-rounding"
 
 IMPORTS = ("From Coq Require Import ZArith QArith List. From PTN Require Import Trunc.Select. "
            "Import ListNotations.")
@@ -339,7 +340,8 @@ class C10(Prop):
             "parameter grid (max_bond_dim incl. inf, rel_tol, total_tol incl. 0, -inf, +inf, renorm, sum_trunc, sum_renorm), plus "
             "seeded random dyadic spectra (length 1..8) with parameters from a wider lattice incl. values the validation rejects "
             "(set by attribute assignment), nan, max_bond_dim=0, unsorted and negative inputs; cases on which a float rounding "
-            "could change a decision are excluded up front (counted). val: all max_bond_dim kinds x tolerance kinds. "
+            "could change a decision (screened with exact rationals before running) are kept out of the exact tie and checked by "
+            "the oracle with both sides of the boundary admissible (counted). val: all max_bond_dim kinds x tolerance kinds. "
             "tree: random trees (1..7 nodes), random bond/physical dimensions, random norm scale, both routines, random "
             "parameters. non-trivial sv = something is discarded or rescaled; tree = at least one bond; distinct by content")
     clauses = [
@@ -382,6 +384,7 @@ class C10(Prop):
     ]
 
     _flag_renorm_zero = None
+    _flag_norm_rounding = None
 
     # ----------------------------------------------------------------------------------------
     def flag_renorm_zero(self):
@@ -391,6 +394,16 @@ class C10(Prop):
         if self._flag_renorm_zero is None:
             self._flag_renorm_zero = any(k.get("id") == FINDING_RENORM_ZERO for k in load_known())
         return self._flag_renorm_zero
+
+    def flag_norm_rounding(self):
+        """_sum_truncation_index normalises by np.linalg.norm(s)**2, which is not the exact sum of squares when
+        the norm is irrational; at an exact boundary tail_weight/total == total_tol**2 the comparison then goes
+        either way (witness s=[3,1,1,1], total_tol=0.5: [3,1] kept, the rule gives [3]). Such inputs are kept out
+        of the exact tie ('fuzzy' cases); a deviation from the exact rule on them is counted, and flagged as a
+        violation only once the lead has recorded the finding in known_findings.json."""
+        if self._flag_norm_rounding is None:
+            self._flag_norm_rounding = any(k.get("id") == FINDING_NORM_ROUNDING for k in load_known())
+        return self._flag_norm_rounding
 
     # ----------------------------------------------------------------------------------------
     def _sv_case(self, s, mbd, rel, tot, renorm, sum_trunc, sum_renorm):
@@ -413,6 +426,7 @@ class C10(Prop):
         rng = ctx.rng(stream)
         cases = []
         self.dropped = Counter()
+        self.boundary_dev = Counter()
         F = Fraction
         if stream == "main":
             if ctx.thorough():
@@ -432,6 +446,7 @@ class C10(Prop):
                 ([0, 0], "inf", "0", "0", True, True, True),                 # renorm of the all-zero spectrum
                 ([1, 1, 1, 1], "inf", "0", "1/2", False, True, True),        # exact boundary, normalised
                 ([2, 1, 1, 1, 1], 3, "0", "1", True, True, False),           # boundary + clamp + renorm
+                ([3, 1, 1, 1], "inf", "0", "1/2", False, True, True),        # exact boundary, irrational norm (fuzzy)
                 ([1, F(1, 2)], 0, "0", "0", False, False, True),             # max_bond_dim = 0 (post-construction)
                 ([1, F(1, 2), F(1, 2)], "inf", "0", "-3/4", False, True, True),   # negative tolerance squared
                 ([1, F(1, 2)], "inf", "0", "nan", False, False, True),
@@ -465,15 +480,12 @@ class C10(Prop):
             mbd = rng.choice([0, 1, 1, 2, 3, 4, 6, 9, "inf", "inf"])
             cases.append(self._sv_case(vals, mbd, rng.choice(tol_pool), rng.choice(tol_pool), rng.random() < 0.4,
                                        rng.random() < 0.45, rng.random() < 0.5))
-        # drop the cases on which float rounding could decide
-        kept = []
+        # cases on which float rounding could decide are kept out of the exact tie (no model, lenient oracle)
         for c in cases:
             ok, why = float_safe(c) if c["s"] else (True, "")
-            if ok:
-                kept.append(c)
-            else:
+            if not ok:
+                c["fuzzy"] = why
                 self.dropped[why] += 1
-        cases = kept
         # validation
         if stream == "main":
             tols = ["-inf", "inf", "nan", "0", "1/2", "-1/2", "-1/1024"]
@@ -534,7 +546,9 @@ class C10(Prop):
                 c["tree:" + x["algo"]] += 1
                 c["tree:nodes=%d" % len(x["parents"])] += 1
         for why, k in getattr(self, "dropped", {}).items():
-            c["dropped(float-unsafe):" + why] += k
+            c["not in the exact tie (float-unsafe):" + why] += k
+        for why, k in getattr(self, "boundary_dev", {}).items():
+            c["float-unsafe case outcome:" + why] += k
         for k, v in getattr(self, "tree_stats", {}).items():
             c["tree-observed:" + k] += v
         return dict(c)
@@ -705,7 +719,7 @@ class C10(Prop):
         # sv cases grouped by spectrum, one Coq expression per (spectrum, chunk of parameter rows)
         groups = {}
         for i, c in enumerate(cases):
-            if c["kind"] == "sv":
+            if c["kind"] == "sv" and not c.get("fuzzy"):
                 groups.setdefault(tuple(c["s"]), []).append(i)
         exprs, owners = [], []
         CH = 120
@@ -877,6 +891,20 @@ class C10(Prop):
             return ks
         new, trunc = ob["new"], ob["trunc"]
         k = len(new)
+        if case.get("fuzzy"):
+            # a rounding may decide: both neighbours of the exact threshold are admissible
+            wide = set(ks)
+            for slack in (1 - Fraction(1, 10 ** 9), 1 + Fraction(1, 10 ** 9)):
+                wide |= rule_from_text(s, case["mbd"], ext_parse(case["rel"]), ext_parse(case["tot"]), case["sum_trunc"],
+                                       case["sum_renorm"], slack)
+            if k in ks:
+                self.boundary_dev["as the exact rule"] += 1
+            elif k in wide:
+                self.boundary_dev["other side of an exact boundary (sqrt rounding)"] += 1
+                if self.flag_norm_rounding():
+                    return (f"norm-rounding: keeps {k} value(s) {new} of {[str(x) for x in s]}; in exact arithmetic the "
+                            f"rule gives {sorted(ks)}")
+            ks = wide
         if k not in ks:
             return f"keeps {k} value(s) {new} of {[str(x) for x in s]}; the rule gives {sorted(ks)}"
         if [Fraction(x) for x in trunc] != s[k:]:
@@ -974,6 +1002,8 @@ class C10(Prop):
     def classify(self, case, what, known):
         if case["kind"] == "sv" and "renorm-zero:" in what:
             return FINDING_RENORM_ZERO
+        if case["kind"] == "sv" and "norm-rounding:" in what and case.get("fuzzy"):
+            return FINDING_NORM_ROUNDING
         if case["kind"] == "sv" and what.startswith("tie:") and "not finite" in what and case["renorm"]:
             s = [Fraction(x) for x in case["s"]]
             if s and all(x == 0 for x in s):
